@@ -116,13 +116,22 @@ def fn_text(fn):
             "\nmodel UsesFq\n  Real a;\n  Real b;\nequation\n  a = time;\n  b = fq(a);\nend UsesFq;\n" % (extra, fn["k"]))
 
 
+def pq_text(pq):
+    """a package with constants that a model in it refers to by their dotted names (flattening pulls such constants
+    into the flat model under the dotted name)."""
+    if not pq:
+        return ""
+    return ("\npackage Pq\n  constant Real kq = %d;\n  constant Real kr = %d;\n  model Mq\n    Real x;\n    Real y;\n  equation\n"
+            "    x = Pq.kq * time;\n    y = x + Pq.kr;\n  end Mq;\nend Pq;\n" % (pq["kq"], pq["kr"]))
+
+
 def handle_text(h):
-    return mlib.print_library(h["lib"]) + fn_text(h.get("fn"))
+    return mlib.print_library(h["lib"]) + fn_text(h.get("fn")) + pq_text(h.get("pq"))
 
 
-def flatten_desc(lib, cname, fn=None):
+def flatten_desc(lib, cname, fn=None, pq=None):
     from pymoca import parser
-    text = mlib.print_library(lib) + fn_text(fn)
+    text = mlib.print_library(lib) + fn_text(fn) + pq_text(pq)
     t = parser.parse(text, bypass_cache=True)
     if t is None:
         return ("exc", "SyntaxError")
@@ -181,7 +190,7 @@ def check_copy_invariant(src, cp):
 
 
 SNIPPET_COUNTER = [0]
-EDIT_KINDS = ("add_symbol", "remove_symbol", "add_equation", "remove_equation", "add_class", "remove_class", "transplant_class", "edit_function")
+EDIT_KINDS = ("replace_constant", "add_symbol", "remove_symbol", "add_equation", "remove_equation", "add_class", "remove_class", "transplant_class", "edit_function")
 
 
 def parse_snippet(text):
@@ -196,9 +205,12 @@ class History:
         from pymoca import parser
         self.ctx, self.r = ctx, rng
         fn = {"k": rng.randint(2, 9), "extra_syms": [], "redecl": rng.random() < 0.5, "elem_extra": []} if rng.random() < 0.4 else None
-        self.text0 = mlib.print_library(lib) + fn_text(fn)
+        pq = {"kq": rng.randint(2, 9), "kr": rng.randint(2, 9)} if rng.random() < 0.35 else None
+        self.text0 = mlib.print_library(lib) + fn_text(fn) + pq_text(pq)
         t0 = parser.parse(self.text0, bypass_cache=True)
-        self.handles = [{"tree": t0, "lib": copy.deepcopy(lib), "depth": 0, "label": "original", "src": None, "fn": fn}]
+        self.handles = [{"tree": t0, "lib": copy.deepcopy(lib), "depth": 0, "label": "original", "src": None, "fn": fn, "pq": pq}]
+        if pq:
+            tags.add("library-with-package-constants-referenced-by-dotted-name")
         if fn:
             tags.add("library-with-function-call")
         self.ops = []
@@ -271,7 +283,7 @@ class History:
         new = copy.deepcopy(h["tree"])
         label = {0: "copy", 1: "copy-of-copy", 2: "copy-of-copy-of-copy"}[h["depth"]]
         self.handles.append({"tree": new, "lib": copy.deepcopy(h["lib"]), "depth": h["depth"] + 1, "label": label, "src": hi,
-                             "fn": copy.deepcopy(h.get("fn"))})
+                             "fn": copy.deepcopy(h.get("fn")), "pq": copy.deepcopy(h.get("pq"))})
         self.ops.append(["deepcopy", hi])
         self.has_copy = True
         self.ctx.cover("op:deepcopy:" + label)
@@ -291,7 +303,29 @@ class History:
         if not classes:
             return None
         kind = kind or r.choice(["add_symbol", "add_symbol", "add_equation", "add_equation", "remove_equation", "remove_symbol",
-                                 "add_class", "remove_class"] + (["edit_function"] * 3 if h.get("fn") else []))
+                                 "add_class", "remove_class"] + (["edit_function"] * 3 if h.get("fn") else []) + (
+                                     ["replace_constant"] * 3 if h.get("pq") else []))
+        if kind == "replace_constant":
+            if not h.get("pq"):
+                return None
+            # a package constant gets another value: the symbol is removed and one of the same name is added
+            which = r.choice(["kq", "kr"])
+            val = r.randint(10, 99)
+            snip = parse_snippet("package X\n  constant Real %s = %d;\nend X;\n" % (which, val))
+            pkg = tree.classes["Pq"]
+            self.ops.append(["replace_constant", hi, "Pq." + which])
+            try:
+                pkg.remove_symbol(pkg.symbols[which])
+                pkg.add_symbol(snip.classes["X"].symbols[which])
+            except Exception as e:
+                flattened_before = any(o[0] == "flatten" and o[1] == hi and o[2] == "Pq.Mq" and o[3] == "direct" for o in self.ops)
+                return ("C06:edit:replace_constant:raises:%s%s" % (type(e).__name__, ":after-flatten-on-this-tree" if flattened_before else ""),
+                        "remove_symbol/add_symbol of constant Pq.%s on handle %d (%s) raised %r" % (which, hi, h["label"], e))
+            h["pq"][which] = val
+            self.has_edit = True
+            self.ctx.monitor("edits_applied")
+            self.ctx.cover("op:replace_constant:on-%s" % h["label"])
+            return None
         if kind == "edit_function":
             if not h.get("fn"):
                 return None
@@ -420,7 +454,7 @@ class History:
     def op_flatten(self, hi, cname=None):
         r = self.r
         h = self.handles[hi]
-        cands = [cname] if cname else mlib.flattenable_classes(h["lib"]) + (["UsesFq"] * 3 if h.get("fn") else []) + (
+        cands = [cname] if cname else mlib.flattenable_classes(h["lib"]) + (["UsesFq"] * 3 if h.get("fn") else []) + (["Pq.Mq"] * 3 if h.get("pq") else []) + (
             ["System", "System", "Lab", "Heater"] if (h.get("fn") or {}).get("redecl") else [])
         # sometimes ask for a class that only exists in another handle
         others = [c for o in self.handles for c in mlib.flattenable_classes(o["lib"]) if c.startswith("Kq")]
@@ -433,7 +467,7 @@ class History:
         direct = r.random() < 0.6
         self.ops[-1].append("direct" if direct else "on-clone")
         got = flatten_handle(h["tree"], cname, direct)
-        exp = flatten_desc(h["lib"], cname, h.get("fn"))
+        exp = flatten_desc(h["lib"], cname, h.get("fn"), h.get("pq"))
         self.ctx.monitor("flatten_comparisons")
         self.ctx.cover("op:flatten:on-" + h["label"])
         if got != exp:
